@@ -434,8 +434,36 @@ def r16g(ck, prog, functions=None):
     return n
 
 
+def r16h(ck, prog, functions=None):
+    """errno is process-wide state that earlier calls leave behind: it is read only on the failure branch of the call that
+    sets it, i.e. under a test of a call result (if (stat(..) != 0) { ... errno ... }), never after a call that succeeded"""
+    n = 0
+    for F in (functions if functions is not None else prog.all_functions):
+        if F.body is None or (functions is None and "/tests/" in F.file):
+            continue
+        for c in F.body.calls("__errno_location"):
+            n += 1
+            where = site(prog, c, "errno")
+            ok = False
+            for cond, pol in guards(c):
+                if c.within(cond):
+                    continue
+                if any(x.k == "CallExpr" and x.callee not in ("__errno_location",) for x in cond.walk()):
+                    ok = True
+                for r in cond.find("DeclRefExpr"):
+                    if r.d.get("dk") == "Var" and any(d_ is not None and any(x.k == "CallExpr" for x in d_.walk()) for d_, _ in local_defs(F, r.d["did"])):
+                        ok = True
+            ck.inst("R16h", where, "%s reads errno %s" % (F.name, "on the failure branch of a call" if ok else "without a test of a call result"), prog.config)
+            if not ok:
+                ck.violation("R16h", "R16h/%s/errno" % F.name, where,
+                             "%s reads errno without first testing the result of the call that may have set it: a successful call leaves "
+                             "errno as an earlier, unrelated failure set it, so the outcome depends on what the process did before" % F.name, prog.config)
+    return n
+
+
 def run(ck, progs):
     describe(ck)
+    ck.rule("R16h", "errno is read only under a test of the result of the call that sets it")
     ck.rule("R16g", "an owning local pointer is not overwritten while it is known to hold a live object unless the old value was saved or released just before")
     ck.rule("R16f", "msa.num_profiles is changed only together with a re-allocation of the sip / nsip / plen arrays it counts")
     for cfg, prog in progs.items():
@@ -462,6 +490,7 @@ def run(ck, progs):
                 v["key"] = v["key"].replace("R05s", "R16c")
         n = ck.attempt(r16d, ck, prog)
         ck.floor("R16d", n, 12, "acquisitions in API-owned functions")
+        ck.attempt(r16h, ck, prog)
         n = ck.attempt(r16g, ck, prog)
         ck.floor("R16g", n or 0, 1, "overwrites of live owning locals")
         cg = CallGraph(prog)
@@ -474,9 +503,12 @@ def run(ck, progs):
     r16a(sub, cp, functions=cp.all_functions)
     r16d(sub, cp, functions=[F.name for F in cp.all_functions], all_exits=True)
     r16g(sub, cp, functions=cp.all_functions)
+    r16h(sub, cp, functions=cp.all_functions)
     keys = {v["key"] for v in sub.violations}
     ck.control("R16g", "bad_r16g_best_overwritten", "R16g/bad_r16g_best_overwritten/best" in keys, True)
     ck.control("R16g", "ok_r16g_best_swapped", any("ok_r16g" in k for k in keys), False)
+    ck.control("R16h", "bad_r16h_stale_errno", "R16h/bad_r16h_stale_errno/errno" in keys, True)
+    ck.control("R16h", "ok_r16h_failure_branch", any("ok_r16h" in k for k in keys), False)
     for want in ("R16a/ctl_counter/calls", "R16a/ctl_cache/static-last", "R16d/bad_r16d_leak_on_error/buf"):
         ck.control(want.split("/")[0], want, want in keys, True)
     for quiet in ("ok_r16d_released", "ctl_const_table"):
